@@ -687,12 +687,27 @@ def object_cache(ctx, chk, facts, prog, file):
         for e in sts:
             allsyms |= syms_of(e[3])
         pds = [x for x in allsyms if x[1] == 16 and x[2].startswith('loopvar:')]
-        if len(pds) != 1:
-            if sts:
-                fmt_bad = fmt_bad or 'the row data being shifted out is not a single 16-bit loop variable'
-            continue
-        PD = pds[0]
-        color = O(8, 'and', O(8, 'trunc', O(16, 'shr', PD, C(16, 14))), C(8, 3))
+        PD = pds[0] if len(pds) == 1 else None
+        if PD is not None:
+            # the row data is a shift register carried by the loop: the pixel is its top two bits
+            color = O(8, 'and', O(8, 'trunc', O(16, 'shr', PD, C(16, 14))), C(8, 3))
+        else:
+            # the pixel is picked out of the object's row data by the pixel number p (the loop counter, 0..7, which also
+            # selects the cell X + p): bits 15-2p, 14-2p
+            rds = [x for x in allsyms if x[1] == 16 and x[2].endswith('.row_data')]
+            xs = [x for x in syms_of(CELL[3][2]) if x[1] == 64 and x[2].startswith('loopvar:')]
+            rng = [e for e in r.state.events if e[0] == 'loopinit' and xs and e[1] == xs[0]]
+            if len(pds) > 1 or len(rds) != 1 or len(xs) != 1 or not rng or rng[-1][2] != C(64, 0) or rng[-1][3] != C(64, 8):
+                if sts:
+                    fmt_bad = fmt_bad or ('the row data being shifted out is neither a single 16-bit loop variable nor the '
+                                          'object row indexed by a pixel counter running from 0 to 8')
+                continue
+            XS = xs[0]
+            base = bvproof.subst(CELL[3][2], {XS: C(64, 0)})
+            if bvproof.equal_under(CELL[3][2], O(64, 'add', base, XS), env, 64) is not True:
+                fmt_bad = fmt_bad or 'pixel number p does not go to cell X + p (%s)' % fmt(CELL[3][2])[:80]
+            sh = O(16, 'trunc', O(64, 'sub', C(64, 14), O(64, 'shl', XS, C(64, 1))))
+            color = O(8, 'and', O(8, 'trunc', O(16, 'shr', rds[0], sh)), C(8, 3))
         empty = O(1, 'eq', O(8, 'and', CELL, C(8, 0x80)), C(8, 0))
         may = O(1, 'and', empty, O(1, 'ne', color, C(8, 0)))
         wrote = bool(sts)
@@ -706,10 +721,11 @@ def object_cache(ctx, chk, facts, prog, file):
             guard_bad = guard_bad or 'a cell is left alone although it is empty and the pixel colour is not 0'
         # row data shifts by one pixel per step, written or not
         import re
-        mloc = re.search(r':_(\d+)$', PD[2])
-        fpd = r.state.mem.get(('L', 1, int(mloc.group(1)))) if mloc else None
-        if fpd is None or bvproof.equal_under(fpd, O(16, 'shl', PD, C(16, 2)), env, 16) is not True:
-            shift_bad = shift_bad or 'the row data is not shifted by one pixel (2 bits) per step'
+        if PD is not None:
+            mloc = re.search(r':_(\d+)$', PD[2])
+            fpd = r.state.mem.get(('L', 1, int(mloc.group(1)))) if mloc else None
+            if fpd is None or bvproof.equal_under(fpd, O(16, 'shl', PD, C(16, 2)), env, 16) is not True:
+                shift_bad = shift_bad or 'the row data is not shifted by one pixel (2 bits) per step'
         if not wrote:
             continue
         nst += 1
